@@ -19,7 +19,8 @@ ASSUMPTIONS = ['the reference payload REF is plain text; the context trees come 
 
 ATOMS = ['a', ' ', '{', '}', '[', ']', '$', '$$', '\\', '\\\\', '\\begin{e}', '\\end{e}', '\\end{itemize}', '\\end{align}',
          '\\item', '%', '\\(', '\\)', '\\[', '\\]', '\\hidden{q}', '\\end{verbatim}', '#', '~', '\\x{', '\\begin{itemize}',
-         '\\end', '\t']
+         '\\end', '\t', '\x0c', '\u2028', '\x85', '\x0b',
+         '\\lstnewenvironment{e}{}{}', '\\DefineVerbatimEnvironment{itemize}', '\\newenvironment{e}', '\\begin{document}']
 CONTEXTS = [
     ('top', 'a ', 'z'),
     ('group', 'p{q ', 'r}s'),
